@@ -1164,3 +1164,103 @@ Proof.
   - intros h Hh. cbn [msite s_hide]. apply in_or_app. left. exact Hh.
   - exact Hcf.
 Qed.
+
+(* ------------------------------------------------------------------------------------------ *)
+(* component-wise containment (the test of the executable origin clause) implies the string-    *)
+(* prefix test of hideCasketfile, and the entry it yields opens exactly the origin             *)
+
+Lemma has_prefix_split : forall (s p : bytes), has_prefix s p = true -> s = p ++ skipn (length p) s.
+Proof.
+  intros s p. revert s. induction p as [|y p IH]; intros s H; [reflexivity|].
+  destruct s as [|x s]; [discriminate|]. cbn [has_prefix] in H.
+  apply andb_true_iff in H as [Hxy Hr]. apply N.eqb_eq in Hxy. subst y.
+  cbn [length skipn app]. f_equal. apply IH. exact Hr.
+Qed.
+
+Lemma app_cut_noslash : forall (s a rel t : bytes),
+  ~ In SLASH s -> a ++ SLASH :: rel = s ++ t -> exists a', a = s ++ a' /\ t = a' ++ SLASH :: rel.
+Proof.
+  induction s as [|c s IH]; intros a rel t Hs E.
+  - exists a. split; [reflexivity|]. symmetry. exact E.
+  - destruct a as [|x a].
+    + cbn in E. injection E as Ec _. exfalso. apply Hs. left. symmetry. exact Ec.
+    + cbn in E. injection E as Ex E. subst x.
+      destruct (IH a rel t) as (a' & Ha & Ht); [intros Hin; apply Hs; right; exact Hin|exact E|].
+      exists a'. split; [cbn; f_equal; exact Ha|exact Ht].
+Qed.
+
+(* a suffix of a cleaned path that starts after a separator is the join of a suffix of its segments *)
+Lemma join_suffix : forall (segs : list bytes) (a rel : bytes),
+  (forall s, In s segs -> good_seg s) -> join [SLASH] segs = a ++ SLASH :: rel ->
+  exists segs', rel = join [SLASH] segs' /\ (forall s, In s segs' -> good_seg s).
+Proof.
+  induction segs as [|s segs IH]; intros a rel Hg E.
+  - destruct a; discriminate.
+  - assert (Hs : ~ In SLASH s) by (destruct (Hg s (or_introl eq_refl)) as (_ & _ & _ & H); exact H).
+    destruct segs as [|s2 segs].
+    + cbn [join] in E. exfalso. apply Hs. rewrite E. apply in_or_app. right. left. reflexivity.
+    + change (join [SLASH] (s :: s2 :: segs)) with (s ++ [SLASH] ++ join [SLASH] (s2 :: segs)) in E.
+      symmetry in E. destruct (app_cut_noslash s a rel _ Hs E) as (a' & _ & Ht).
+      destruct a' as [|x a'].
+      * cbn in Ht. injection Ht as Ht. exists (s2 :: segs). split; [symmetry; exact Ht|].
+        intros y Hy. apply Hg. right. exact Hy.
+      * cbn in Ht. injection Ht as _ Ht.
+        apply (IH a' rel); [intros y Hy; apply Hg; right; exact Hy|exact Ht].
+Qed.
+
+Lemma skipn_all_self {A} (l : list A) : skipn (length l) l = [].
+Proof. induction l as [|x l IH]; [reflexivity|exact IH]. Qed.
+
+Lemma origin_inside_root_is_hidden base rootrel x p :
+  reroot rootrel (jail x) = Some p ->
+  exists h, hide_casketfile (abs_of base rootrel) (base ++ jail x) = Some h /\ jail h = p /\ jail p = p.
+Proof.
+  unfold reroot, abs_of. destruct (beq rootrel [SLASH]) eqn:Er.
+  - intros E. injection E as <-. exists (jail x).
+    destruct (hide_casketfile_inside base x) as [-> Hj]. auto.
+  - destruct (beq (jail x) rootrel) eqn:Eo.
+    + intros E. injection E as <-. apply beq_eq in Eo. rewrite <- Eo. exists [].
+      split; [|split; vm_compute; reflexivity].
+      unfold hide_casketfile. destruct (base ++ jail x) eqn:E.
+      * destruct (jail_rooted x) as (t & Et). rewrite Et in E. destruct base; discriminate.
+      * rewrite has_prefix_refl, skipn_all_self. reflexivity.
+    + destruct (is_desc rootrel (jail x)) eqn:Ed; [|discriminate].
+      intros E. injection E as <-.
+      unfold is_desc in Ed. apply andb_true_iff in Ed as [Hp _].
+      unfold rel_name. unfold dir_prefix in *. rewrite Er in *.
+      pose proof (has_prefix_split _ _ Hp) as Hsplit.
+      set (rel := skipn (length (rootrel ++ [SLASH])) (jail x)) in *.
+      assert (Ho : jail x = rootrel ++ SLASH :: rel) by (rewrite Hsplit at 1; rewrite <- app_assoc; reflexivity).
+      exists (SLASH :: rel). split; [|split].
+      * unfold hide_casketfile. rewrite Ho. destruct (base ++ rootrel ++ SLASH :: rel) eqn:E.
+        { destruct base; [destruct rootrel|]; discriminate. }
+        rewrite <- E. rewrite app_assoc. rewrite has_prefix_app_self, skipn_app_self. reflexivity.
+      * (* jail (SLASH :: rel) = SLASH :: rel *)
+        destruct (clean_rooted_shape (SLASH :: x)) as (segs & Hc & Hg); [exists x; reflexivity|].
+        change (clean (SLASH :: x)) with (jail x) in Hc.
+        destruct rootrel as [|c r'].
+        -- change ([] ++ SLASH :: rel) with (SLASH :: rel) in Ho. rewrite <- Ho. apply jail_idem.
+        -- rewrite Hc in Ho. change ((c :: r') ++ SLASH :: rel) with (c :: (r' ++ SLASH :: rel)) in Ho. injection Ho as _ Ho.
+           destruct (join_suffix segs r' rel Hg Ho) as (segs' & -> & Hg').
+           unfold jail. rewrite clean_extra_slash by (eexists; reflexivity). apply clean_of_shape. exact Hg'.
+      * destruct (clean_rooted_shape (SLASH :: x)) as (segs & Hc & Hg); [exists x; reflexivity|].
+        change (clean (SLASH :: x)) with (jail x) in Hc.
+        destruct rootrel as [|c r'].
+        -- change ([] ++ SLASH :: rel) with (SLASH :: rel) in Ho. rewrite <- Ho. apply jail_idem.
+        -- rewrite Hc in Ho. change ((c :: r') ++ SLASH :: rel) with (c :: (r' ++ SLASH :: rel)) in Ho. injection Ho as _ Ho.
+           destruct (join_suffix segs r' rel Hg Ho) as (segs' & -> & Hg').
+           unfold jail. rewrite clean_extra_slash by (eexists; reflexivity). apply clean_of_shape. exact Hg'.
+Qed.
+
+Lemma hide_casketfile_iff root origin h :
+  hide_casketfile root origin = Some h <->
+  origin <> [] /\ has_prefix origin root = true /\ h = skipn (length root) origin.
+Proof.
+  unfold hide_casketfile. destruct origin as [|a o].
+  - split; [discriminate|]. intros (H & _). contradiction.
+  - destruct (has_prefix (a :: o) root).
+    + split.
+      * intros E. injection E as <-. split; [discriminate|]. split; reflexivity.
+      * intros (_ & _ & ->). reflexivity.
+    + split; [discriminate|]. intros (_ & H & _). discriminate.
+Qed.
